@@ -1,6 +1,7 @@
 (* C14, definitions only (no proofs here):
    1. [api_wf]: the boolean well-formedness check that Props/C14.v evaluates on the table
-      generated from the CURRENT source (Gen/Api.v);
+      generated from the CURRENT source (Gen/Api.v) and on the struct types of the package
+      ([api_structs], same file);
    2. a small big-step semantics of the builder IR of Spec/ApiShape.v.
 
    What the semantics models: a store of *Statement cells (each a list of items), *Group
@@ -69,6 +70,9 @@ Definition s_Statement : str := S "Statement".
 Definition s_Group : str := S "Group".
 Definition s_pStatement : str := S "*Statement".
 Definition s_Func : str := S "Func".
+Definition s_File : str := S "File".
+Definition s_Render : str := S "Render".
+Definition s_GoString : str := S "GoString".
 
 (* ------------------------------------------------------------------ syntactic measures *)
 (* [count p e]: sum of [p] over all nodes of [e] *)
@@ -312,6 +316,22 @@ Definition render_delegates (r : api_row) : bool :=
   | _, _ => false
   end.
 
+(* the receivers whose functions may return *Statement: "" (package functions), Statement, Group *)
+Definition builder_recvs : list str := [[]; s_Statement; s_Group].
+
+(* GoString() is: render into a new buffer with the receiver's own Render, panic on error,
+   return the text - `buf := bytes.Buffer{}; if err := x.Render(&buf); err != nil { panic(err) };
+   return buf.String()` (the body kind [BufString]) *)
+Definition gostring_recvs : list str := [s_Statement; s_Group; s_File].
+
+Definition gostring_delegates (r : api_row) : bool :=
+  match r_params r, r_body r with
+  | [], BufString b (ECallMeth (EVar x) m [EVar b1]) =>
+      str_eqb x (r_self r) && str_eqb m s_Render && str_eqb b1 b && negb (str_eqb b (r_self r)) &&
+      str_eqb (r_ret r) (S "string")
+  | _, _ => false
+  end.
+
 Definition row_ok (tbl : list api_row) (r : api_row) : bool :=
   match r_body r with Untranslatable _ => false | _ => true end &&
   (if returns_stmt r || has_cb r then has_body r else true) &&
@@ -335,7 +355,10 @@ Definition row_ok (tbl : list api_row) (r : api_row) : bool :=
         forallb (fun p => if is_func p then Nat.eqb (calls_of (p_name p) (body_stmts r)) 1 else true) (r_params r)
    else true) &&
   (if str_eqb (r_name r) (S "Render") && (str_eqb (r_recv r) s_Statement || str_eqb (r_recv r) s_Group)
-   then render_delegates r else true).
+   then render_delegates r else true) &&
+  (* only package functions and the methods of *Statement and *Group return *Statement: a method
+     of File (or of any other type) that does is a form of nothing *)
+  (if returns_stmt r then mem (r_recv r) builder_recvs else true).
 
 (* names the property statement lists; each must be present with a callback *)
 Definition named_callback_apis : list (str * str) :=
@@ -346,12 +369,73 @@ Definition rows_wf (tbl : list api_row) : bool := forallb (row_ok tbl) tbl.
 
 Definition is_nil {A} (l : list A) : bool := match l with [] => true | _ => false end.
 
-Definition api_wf (tbl : list api_row) (ff gs : list (str * str)) : bool :=
+(* ---- promotion through embedded fields (File embeds *Group, so f.Type() is the Type method of *Group)
+   [cone sts n T]: T and every type reached from T through at most n embedded fields *)
+Definition struct_of (sts : list struct_info) (T : str) : option struct_info :=
+  find (fun s => str_eqb (t_name s) T) sts.
+Definition embeds_of (sts : list struct_info) (T : str) : list str :=
+  match struct_of sts T with Some s => t_embeds s | None => [] end.
+Definition fields_of (sts : list struct_info) (T : str) : list str :=
+  match struct_of sts T with Some s => t_fields s | None => [] end.
+
+Fixpoint cone (sts : list struct_info) (fuel : nat) (T : str) : list str :=
+  T :: match fuel with
+       | O => []
+       | Datatypes.S n => flat_map (cone sts n) (embeds_of sts T)
+       end.
+
+(* a shortest chain of embedded fields passes through each struct type at most once *)
+Definition cone_of (sts : list struct_info) (T : str) : list str := cone sts (length sts) T.
+
+(* T is another type than B and gets B's methods by promotion (unless something is in the way) *)
+Definition reaches (sts : list struct_info) (B T : str) : bool :=
+  negb (str_eqb T B) && mem B (cone_of sts T).
+
+(* the names of the forms of B: its methods that return *Statement *)
+Definition form_names (tbl : list api_row) (B : str) : list str :=
+  map r_name (filter (fun r => str_eqb (r_recv r) B && returns_stmt r) tbl).
+
+(* U has a method (with an exported name) or a field called M *)
+Definition declares (tbl : list api_row) (sts : list struct_info) (U M : str) : bool :=
+  match find_row tbl U M with Some _ => true | None => false end || mem M (fields_of sts U).
+
+(* a type the table knows all the methods and fields of: Statement (a slice type: no fields),
+   or a struct type of the package; a type of another package is not *)
+Definition known_type (sts : list struct_info) (U : str) : bool :=
+  str_eqb U s_Statement || match struct_of sts U with Some _ => true | None => false end.
+
+(* T gets the forms of B by promotion: no type on the way or beside it - T itself, or anything
+   else T embeds, at any depth - may have a method or a field with the name of a form of B (at a
+   smaller depth it would be selected instead of B's: shadowing; at the same depth the selector
+   would be ambiguous; the check does not bother about greater depths), and each such type must be
+   a known one *)
+Definition promotes_ok (tbl : list api_row) (sts : list struct_info) (B T : str) : bool :=
+  forallb (fun U => str_eqb U B ||
+                    (known_type sts U && forallb (fun M => negb (declares tbl sts U M)) (form_names tbl B)))
+          (cone_of sts T).
+
+Definition no_shadow (tbl : list api_row) (sts : list struct_info) : bool :=
+  forallb (fun B => forallb (fun st => if reaches sts B (t_name st) then promotes_ok tbl sts B (t_name st) else true) sts)
+          [s_Group; s_Statement].
+
+Definition has_row (tbl : list api_row) (recv name : str) : bool :=
+  match find_row tbl recv name with Some _ => true | None => false end.
+
+(* Statement, Group and File each have their own Render and a GoString of the delegating shape
+   (it calls the receiver's Render: with a row of its own, that is the method selected) *)
+Definition gostring_ok (tbl : list api_row) : bool :=
+  forallb (fun recv => has_row tbl recv s_Render &&
+                       match find_row tbl recv s_GoString with Some r => gostring_delegates r | None => false end)
+          gostring_recvs.
+
+Definition api_wf (tbl : list api_row) (sts : list struct_info) (ff gs : list (str * str)) : bool :=
   rows_wf tbl &&
   forallb (fun rn => match find_row tbl (fst rn) (snd rn) with Some r => has_cb r | None => false end) named_callback_apis &&
   match find_row tbl s_Statement (S "Render"), find_row tbl s_Group (S "Render") with
   | Some _, Some _ => true | _, _ => false end &&
-  is_nil ff && is_nil gs.
+  is_nil ff && is_nil gs &&
+  gostring_ok tbl &&
+  no_shadow tbl sts.
 
 (* ------------------------------------------------------------------ semantics *)
 Inductive value :=
